@@ -264,7 +264,7 @@ func runC20(c *Ctx) {
 		sn := c.UniqueCall("C20.S", p, f, false, "os/signal.Notify")
 		if sn != nil {
 			sigs := map[int64]bool{}
-			SliceBack(CallOf(sn).Args[1], func(v ssa.Value) bool {
+			SliceBack(PArgs(CallOf(sn))[1], func(v ssa.Value) bool {
 				if mi, ok := v.(*ssa.MakeInterface); ok {
 					if n, isC := ConstInt(mi.X); isC {
 						sigs[n] = true
@@ -278,7 +278,7 @@ func runC20(c *Ctx) {
 			for _, cl := range DirectClosures(f) {
 				var rcv, cls ssa.Instruction
 				for _, op := range ChanOpsOf(cl) {
-					if op.Kind == "recv" && SameValue(op.Chan, CallOf(sn).Args[0]) {
+					if op.Kind == "recv" && SameValue(op.Chan, PArgs(CallOf(sn))[0]) {
 						rcv = op.Instr
 					}
 					if op.Kind == "close" {
@@ -350,7 +350,7 @@ func runC20(c *Ctx) {
 				okCtx := false
 				if wc != nil && adapterFn != nil {
 					for _, call := range Calls(adapterFn, ag+".runAdapter") {
-						rs := Roots(CallOf(call).Args[1])
+						rs := Roots(PArgs(CallOf(call))[1])
 						if len(rs) == 1 {
 							if e, ok := rs[0].(*ssa.Extract); ok && e.Tuple == ssa.Value(wc) && e.Index == 0 {
 								okCtx = true
@@ -444,21 +444,42 @@ func runC20(c *Ctx) {
 		}
 		// ---- C20.W
 		bad := ""
-		for _, r := range Refs(f.Params[0]) {
-			switch x := r.(type) {
-			case *ssa.Call:
-				if x.Call.IsInvoke() && x.Call.Value == ssa.Value(f.Params[0]) {
-					n := x.Call.Method.Name()
-					if n == "Done" || n == "Err" {
-						continue
+		var confined func(prm *ssa.Parameter, depth int)
+		confined = func(prm *ssa.Parameter, depth int) {
+			if prm == nil {
+				return
+			}
+			for _, r := range Refs(prm) {
+				switch x := r.(type) {
+				case *ssa.Call:
+					if x.Call.IsInvoke() && x.Call.Value == ssa.Value(prm) {
+						n := x.Call.Method.Name()
+						if n == "Done" || n == "Err" {
+							continue
+						}
 					}
+					// handed to a module function: harmless if that function confines it too
+					// (e.g. accepts it for later use and ignores it today)
+					if callee := x.Call.StaticCallee(); callee != nil && len(callee.Blocks) > 0 && p.IsModFunc(callee) && depth < 3 {
+						handled := false
+						for k, a := range x.Call.Args {
+							if a == ssa.Value(prm) && k < len(callee.Params) {
+								confined(callee.Params[k], depth+1)
+								handled = true
+							}
+						}
+						if handled {
+							continue
+						}
+					}
+					bad = "passed to / used by " + CalleeName(x.Common()) + " at " + p.Pos(x.Pos())
+				case *ssa.DebugRef:
+				default:
+					bad = fmt.Sprintf("used by %T at %s (stored, captured or handed on)", r, p.Pos(r.Pos()))
 				}
-				bad = "passed to / used by " + CalleeName(x.Common()) + " at " + p.Pos(x.Pos())
-			case *ssa.DebugRef:
-			default:
-				bad = fmt.Sprintf("used by %T at %s (stored, captured or handed on)", r, p.Pos(r.Pos()))
 			}
 		}
+		confined(ParamAt(f, 0), 0)
 		c.Check("C20.W", "polling-context:confined", p, f.Pos(), bad == "", "the polling context is only asked Done()/Err() inside pollForNewRequests: nothing a worker uses depends on it", "the polling context is "+bad+": cancelling polling on shutdown also cancels what that value was given to (e.g. the HTTP client the workers use to fetch requests and upload responses), so requests already forwarded are not answered")
 		if ra := p.Func("agent.runAdapter"); ra != nil {
 			ruleParamOnlyPassedTo(c, p, "C20.W", "runAdapter:polling-context-only-for-the-poller", ra, 1, ag+".pollForNewRequests", 0, "runAdapter hands the polling context to pollForNewRequests and to nothing else", "the polling context leaks out of the poller in runAdapter: whatever receives it (a transport wrapper, the shared HTTP client, the handler chain) is cancelled together with polling, so uploads of requests already forwarded are aborted at shutdown")
@@ -469,7 +490,7 @@ func runC20(c *Ctx) {
 			if st, ok := i.(*ssa.Store); ok {
 				if base, fld, ok := FieldAddrOf(st.Addr); ok && NamedType(base.Type()) == "net/http.Client" {
 					for _, r := range Roots(base) {
-						if r == ssa.Value(f.Params[1]) {
+						if r == ssa.Value(ParamAt(f, 1)) {
 							mod = "client." + fld + " at " + p.Pos(st.Pos())
 						}
 					}
@@ -479,7 +500,7 @@ func runC20(c *Ctx) {
 		c.Check("C20.W", "shared-client:not-modified-by-poller", p, f.Pos(), mod == "", "the poller does not modify the *http.Client it shares with the workers", "the poller overwrites "+mod+" of the *http.Client it shares with every worker")
 		if g := c.UniqueCall("C20.W", p, f, false, ag+".processOneRequest"); g != nil {
 			okA := true
-			for _, a := range CallOf(g).Args {
+			for _, a := range PArgs(CallOf(g)) {
 				if NamedType(a.Type()) == "context.Context" {
 					okA = false
 				}
